@@ -33,7 +33,7 @@ Definition append_binary_e (b : bop') (l r : tree) : result tree :=
   | KIter =>
       match b with
       | BChain => Ok (Bin Chain l r)
-      | BJoin p c => join_finish p c l r
+      | BJoin p c => join_finish conform p c l r
       | BIgnore il => Ok (if il then r else l)
       end
   | KSql => do cl <- conform l; do cr <- conform r; append_binary_sel b cl cr
